@@ -80,17 +80,27 @@ What is proved
   | T4 ⊇ T3: as T3, and a one-to-many action may return NO packet (`drop`, or `many` with nothing on an existing port): the request is answered with itself, in order | `C02.ClassT4` | `C02.flow_answers_eq_ref_T4` (`C02.classT3_sub_T4`, non-vacuity `C02.flow_T4_instance`; lean/Uniflow/Proofs/FlowH7e.lean, FlowH29.lean) |
   | T5 ⊇ T4: ALL THREE node kinds – many-to-one (join) nodes with up to 63 in-ports, links into any existing in-port; the action of a join node returns one new packet, one new error packet or nothing. A join node's `Read` that does not complete the OLDEST open group answers the packet with itself; the packet completing the group carries the derived packet | `C02.ClassT5` | `C02.flow_answers_eq_ref_T5` (invariant `FlowN.HI`: `FlowH.HI` indexed by in-port – node relation `FlowM.JBm` for any number of forward threads, per-thread log invariant `FlowM.NLm`, owner tag `n*64+port` –, lean/Uniflow/Proofs/FlowM1..9.lean, FlowN1..21.lean; `C02.flow_invariant_T5`, `C02.classT4_sub_T5`, non-vacuity `C02.flow_T5_instance`: two-input join fed by different upstream nodes, one input three requests ahead) |
 
-  The class definitions, theorems and instances T1..T5 are in lean/Uniflow/Props/C02Flow.lean.
+  | T6 ⊇ T5: as T5, and an action of ANY node kind may return its INPUT packet once (`same` = `return inPck, nil`, the pass-through most of uniflow's own nodes are; `sames 1` = `[inPck]`): `Link(in, in)` is ignored, `Write(out, in)` makes the request itself awaited on the out-writer (`RSt.direct`); its answer is the join over the copies the writer delivered (`dels` of the request id), or itself when nobody accepts | `C02.ClassT6` | `C02.flow_answers_eq_ref_T6` – the full statement WITHOUT its freshness hypothesis `e.fresh` – (`C02.flow_invariant_T6`, `C02.classT5_sub_T6`, non-vacuity `C02.flow_T6_instance`: a pass-through chain through a fork returning `[inPck]`, pipelined; pass-through nodes into a join returning its input; lean/Uniflow/Proofs/FlowN18s.lean, FlowN19.lean; node level: `C02.node_contract_same`, lean/Uniflow/Proofs/NodeProtocolSame.lean) |
+
+  The class definitions, theorems and instances T1..T6 are in lean/Uniflow/Props/C02Flow.lean. Classes T3 and T4 are
+  corollaries of T5 (their own invariant `FlowH.HI` was removed; lean/Uniflow/Proofs/FlowH1..4.lean keep the shared
+  definitions and helper lemmas).
 
 Not proved: `C02.flow_answers_eq_ref_full` (kept as a `def`) in general – beyond the classes of the table:
-(e) actions returning their INPUT packet (`same`, `sames`: `RSt.direct`, excluded by `FlowH.ReqA`; with `Write`
-copying this is sound but the request id then also has `dels` entries). What it needs: `J_finish`
-(`Proofs/NodeProtocol.lean`) for an outcome whose packet is the request itself (its id is not fresh – `introS`),
-a third alternative `st = direct w` / `cells [filled ans]` with `RA lg x.p ans` in `FlowH.ReqB` (the answer of the
-writer's row IS the request's answer: `dels x.p` = the copies) through `FlowH4..7` / `FlowM1..6`, and `release`
-with `outs = []` but a `Write` of the request id in `FlowN13` (`write_shape`'s first alternative with `w = some _`);
-`sames k` with `k ≥ 2` additionally leaves the tracer protocol `ATracer.Pre` (second `Write` of a `direct` request);
-(f) one-to-one actions returning nothing (the Go code dereferences nil – `program` = none, the model panics);
+(e) `sames k` with `k ≥ 2` – ONE packet object returned on several out ports of a fork (`{inPck, inPck}`): the second
+`Write` of a request that is already awaited on a writer leaves the abstract tracer's protocol (`ATracer.Pre`;
+`awrite` of a `direct` request sets `bad`) – the real `Tracer.Write` appends a second `receives` slot. It needs
+`RSt.direct` with a LIST of writers in `Spec/ATracer.lean` (and `TRel`, `Inv.owed`), `OpsOK` with a shape
+`Link(p,p)…; Write(w₁,p); …; Write(w_k,p)`, and the request's `dels` growing with every write (already so in
+`Flow.gWrite`). Checked on every run instead (`rel n s k` schedules, `orderfree` comparison).
+(f) one-to-one actions returning nothing, `(nil, nil)`: the REAL `OneToOneNode.forward` calls
+`tracer.Write(outWriter, nil)`, `Writer.Write(nil)` / `Tracer.receive(nil, nil)` dereference the nil packet and the
+forward goroutine panics – the process dies, the request is never answered (witness: a test with
+`NewOneToOneNode(func(…) (*packet.Packet, *packet.Packet) { return nil, nil })`, one `Write` on a linked source →
+`panic: runtime error: invalid memory address or nil pointer dereference … packet.(*Packet).ID … Tracer.receive …
+Tracer.Write … OneToOneNode.forward onetoone.go:89`). The model agrees: `program .oneToOne p (.outs [])` = none, the
+node's `panic` flag is set (and `anyPanic` excludes the run from the quiescence half). One-to-many and many-to-one
+nodes answer such a request with itself (`Write(nil, in)`, classes T4/T5);
 one-to-many nodes with more than 6 out ports (the pump `backStep` only looks at writers `< maxW`); many-to-one
 nodes with more than 63 in-ports (reader keys `n*64+port`, tag `n*64+63` is the action tag); a many-to-one action
 returning several packets (`many`).
@@ -104,6 +114,7 @@ returning its input packet is covered at tracer level only (`C02.tracer_refines`
 import Uniflow.Proofs.Node
 import Uniflow.Proofs.ATracer
 import Uniflow.Proofs.NodeProtocol
+import Uniflow.Proofs.NodeProtocolSame
 import Uniflow.Props.C01
 import Uniflow.Proofs.Flow
 
@@ -455,6 +466,37 @@ theorem C02.node_contract (k : Kind) (sched : List Step) (hnd : (sched.flatMap i
       | finish i o => cases o <;> rfl
       | _ => rfl
     exact Uniflow.ATracer.node_protocol k sched (e ▸ hnd))
+
+open Uniflow.ATracer in
+/-- **Node contract when actions return their INPUT packet** (`return inPck, nil` – the pass-through most of
+uniflow's own nodes are –, `return nil, inPck`, `[inPck]`): the freshness hypothesis of `C02.node_contract` is
+needed only for the packets that are NEW. `introRun` collects, along the run, the ids each step introduces; a
+`finish` whose result is exactly the packet its action runs on introduces none – the node then calls `Link(in, in)`
+(ignored by the tracer) and `Write(out, in)`, the request itself is awaited on the out-writer. Every schedule with
+fresh ids (`C02.node_contract`) is covered (`introRun` is then a sublist of `flatMap introduced`). -/
+theorem C02.node_contract_same (k : Kind) (sched : List Step)
+    (hnd : (introRun (Uniflow.Node.mk k) sched).Nodup) :
+    (Uniflow.Node.run (Uniflow.Node.mk k) sched).2 = (arun {} (callsOf (Uniflow.Node.mk k) sched)).2 ∧
+    (Uniflow.Node.run (Uniflow.Node.mk k) sched).1.tr.panic = false :=
+  C02.node_contract_partial_all_kinds k sched (Uniflow.ATracer.node_protocol_same k sched hnd)
+
+open Uniflow.ATracer in
+/-- non-vacuity: a pass-through schedule – the packet with id 1 is delivered, read, RETURNED by the action, linked
+to itself, written, answered with 9 – satisfies the hypothesis of `C02.node_contract_same`, not the freshness
+hypothesis of `C02.node_contract` (id 1 is introduced twice), and the request is answered once, with 9 -/
+theorem C02.node_contract_same_nonvacuous :
+    (introRun (Uniflow.Node.mk .oneToOne)
+      [.deliver 0 ⟨1, .atom 1⟩, .read 0, .finish 0 (.outs [some ⟨1, .atom 1⟩]), .op 0 true, .op 0 true,
+       .answer (outW 0) (.pay (.atom 9))]).Nodup ∧
+    ¬ (List.flatMap introduced
+      [Step.deliver 0 ⟨1, .atom 1⟩, .read 0, .finish 0 (.outs [some ⟨1, .atom 1⟩]), .op 0 true, .op 0 true,
+       .answer (outW 0) (.pay (.atom 9))]).Nodup ∧
+    (match (Uniflow.Node.run (Uniflow.Node.mk .oneToOne)
+      [.deliver 0 ⟨1, .atom 1⟩, .read 0, .finish 0 (.outs [some ⟨1, .atom 1⟩]), .op 0 true, .op 0 true,
+       .answer (outW 0) (.pay (.atom 9))]).2 with
+     | [Ev.reply 0 (.pay (.atom 9))] => true
+     | _ => false) = true := by
+  refine ⟨by decide, by decide, by rfl⟩
 
 open Uniflow.ATracer in
 /-- one-to-many node, unconditional (several derived packets per request, error port, echo) -/
